@@ -46,7 +46,27 @@ def selftests(events, rng):
     return out
 
 
+MCA_CFG = """CONSTANTS SRNAME = "Sat3"
+ L = %d
+INIT Init
+NEXT Next
+INVARIANT ClosedFormAgrees
+INVARIANT TotalIsSumOfAll
+INVARIANT ReverseIsReverse
+CHECK_DEADLOCK FALSE
+"""
+
+
+def model_check(report, tier):
+    from common import run_tlc, MachineryError
+    res = run_tlc("MCAutomata", MCA_CFG % (2 if tier == "quick" else 4), timeout=3000)
+    if not res.ok or res.left != 0:
+        raise MachineryError("MCAutomata: the automaton oracles disagree with each other (spec-level):\n" + res.errhead)
+    report.add_tlc(res, "MCAutomata: all 2304 two-state automata over {a, eps}: ClosedFormAgrees, TotalIsSumOfAll, ReverseIsReverse")
+
+
 def run(report, tier, seed):
+    model_check(report, tier)
     standard_run(report, "C11", MODULE, tier, seed, selftests,
                  sample_keys=("op", "sr", "M", "A", "s", "res", "site"),
                  rule=("random automata (2-4 states, parallel arcs, epsilon arcs and epsilon cycles, several initial/final "
